@@ -144,6 +144,7 @@ OPS = {
     "send_list": (63, lambda bs, na, fr, so: [len(bs)] + sum((bts(b) for b in bs), []) + [int(na), fr, int(so)],
                   lambda o, bs, na, fr, so: o.send(bs, na, fr, so), r_sendlist),
     "rpd": (64, lambda: [], getattr_("rpd"), r_bool),
+    "ce_pin=": (65, lambda b: [int(b)], setattr_("ce_pin"), r_unit),
 }
 # world-level pseudo operations
 W_ORACLE, W_INJECT, W_SELECT, W_AIR = 90, 91, 92, 93
